@@ -1,6 +1,6 @@
 """C11 - GHW files load faithfully (signal sections: per-bit vector assembly, delta cycles, integers, enums, reals, times)."""
 import struct
-from .. import core, gen
+from .. import core, gen, designs
 from . import vcdfam
 
 PID = "C11"
@@ -13,9 +13,14 @@ RULE = ("abstract GHW value histories (std_ulogic and bit scalars and vectors of
         "repetitions dropped, 32-bit two's complement, IEEE doubles, femtoseconds); the Gallina model of the section reader and "
         "of the VecBuffer is run on the same bytes. Truncated and corrupted sections: model vs implementation outcome class. "
         "Non-trivial: the history has a vector wider than 8 bits or a delta cycle; distinct histories. "
-        "The GHW header/type/hierarchy sections are exercised through the corpus files by C07, C13, C14, C17 only.")
+        "Complete GHW files: random designs (instances, packages, blocks, generate and generic scopes; std_[u]logic, bit, "
+        "their vectors with to/downto ranges and offsets, user enumerations incl. ones that start like bit or std_ulogic, "
+        "boolean, integers, reals; six port directions; identifiers sharing 31..56 leading characters so that the string "
+        "table's prefix compression is exercised; little and big endian; delta cycles inside and across cycle sections) are "
+        "written by vlib/filegen.py and loaded; the full listing (harness command wfull: scope kinds, variable types, "
+        "directions, ranges, enum tables, type names, every change) must equal the listing computed from the design.")
 ASSUMPTIONS = ["the decode information (signal types, vector ranges) produced by the unmodelled hierarchy section reader is an input"]
-TRUSTED_BASE = ["Python GHW signal-section writer and oracle (c11.py)"]
+TRUSTED_BASE = ["Python GHW signal-section writer and oracle (c11.py)", "Python GHW file writer and expected listing (vlib/filegen.py, vlib/designs.py)"]
 
 STD = "ux01zwlh-"
 
@@ -219,6 +224,8 @@ def build(rng):
 
 def run(res, rng, tier, model_ok, replay=None):
     cases = []
+    if replay and designs.replay_filecase(res, replay, "c11f"):
+        return
     if replay:
         line = replay.get("case") or replay["broken_correspondence"]["case"]
         cases.append({"line": line})
@@ -235,6 +242,10 @@ def run(res, rng, tier, model_ok, replay=None):
                 cases.append({"line": " ".join(parts[:5] + [bad.hex() or "-"]), "klass": "damaged(model only)"})
     vcdfam.run_both(res, cases, "c11", model_ok)
     res.samples = [c["line"][:300] for c in cases[:2]]
+    if not replay:
+        # complete generated GHW files (string table with shared prefixes, type table, hierarchy, snapshot, cycles with
+        # delta rounds), full listing vs design
+        designs.run_file_cases(res, designs.ghw_cases(rng, tier), "c11f")
 
 
 def check_known(entry):
